@@ -1,6 +1,7 @@
 """Run-time contracts on enumeration, counting, fixing/freeing and history-independence of GraphProcessor
 (C04, C15, C05), over the bounded corpus."""
 import copy
+import os
 import itertools
 import pickle
 
@@ -80,9 +81,13 @@ def enum_member(desc, tier, seed):
                 gp2.fix_des_var(gp2.des_vars[k], val)
             except RuntimeError:
                 break   # connection-choice variables cannot be fixed (C15)
-            Xf, Af = rows_of(gp2)
             witf = ['COMPLETE', 'fixed', k, val]
             ntf = (desc.label, 'fix', k, val)
+            try:
+                Xf, Af = rows_of(gp2)
+            except Exception as e:  # noqa
+                ctx.check('C04.fixed-enumeration-total', False, witf, f'enumeration with a fixed variable raised {type(e).__name__}: {e}', ntf)
+                continue
             ctx.check('C04.fixed-rows-distinct', len(set(map(tuple, Xf))) == len(Xf), witf,
                       f'{len(Xf)} rows, {len(set(map(tuple, Xf)))} distinct', ntf)
             af = []
@@ -206,7 +211,11 @@ def fix_member(desc, tier, seed):
                 ctx.check('C15.variable-disappears', len(gp.des_vars) == n - len(fixed) and dvs[k] not in gp.des_vars,
                           wit, f'{len(gp.des_vars)} variables left', nt)
                 if all(dvs[j].is_discrete for j in fixed):
-                    X, A = rows_of(gp)
+                    try:
+                        X, A = rows_of(gp)
+                    except Exception as e:  # noqa
+                        ctx.check('C15.restricted-enumeration-total', False, wit, f'after {op}: enumeration raised {type(e).__name__}: {e}', nt)
+                        break
                     exp = expected_rows(fixed)
                     must = expected_rows(fixed, must=True)
                     got = sorted(map(tuple, X))
@@ -410,3 +419,63 @@ def _rebind(b, gp):
             nb.node[name] = n
     nb.choice = {str(n.decision_id): n for n in gp.graph.graph.nodes if n.__class__.__name__ == 'SelectionChoiceNode'}
     return nb
+
+
+# ------------------------------------------------------------------ C05 / C14: independence from other processors
+CROSS_CODE = r'''
+import sys, json
+sys.path.insert(0, %(here)r)
+from bounded import corpus
+from bounded.decode import make_processor, obs_arch
+from bounded.harness import all_vectors
+m = {d.label: d for d in corpus.corpus(['inc', 'sel', 'con'], 'quick')}
+dA, dB, enc = m[%(a)r], m[%(b)r], %(enc)r
+
+def dec(desc, x, create, proc=None):
+    b, gp = proc or make_processor(desc, enc)
+    try:
+        inst, xi, ai = gp.get_graph(list(x), create=create)
+        return [[round(float(v), 9) for v in xi], [bool(v) for v in ai], sorted(obs_arch(b, inst)[0]) if inst is not None else None]
+    except Exception as e:
+        return ['raise', type(e).__name__]
+
+bB, gB = make_processor(dB, enc)
+X, _ = all_vectors(gB.des_vars, cap=32)
+ref = {(tuple(x), c): dec(dB, x, c) for x in X for c in (False, True)}
+# another processor, on a graph with the same variables, serves decodes (some of them of vectors that it has to correct)
+bA, gA = make_processor(dA, enc)
+XA, _ = all_vectors(gA.des_vars, cap=32)
+for x in XA:
+    for c in (False, True):
+        dec(dA, x, c, proc=(bA, gA))
+diff = []
+for (x, c), want in ref.items():
+    got = dec(dB, x, c)
+    if got != want:
+        diff.append([list(x), c, want, got])
+print(json.dumps(diff))
+'''
+
+
+def cross_member(payload, tier, seed):
+    """Decoding on a processor of graph B is the same before and after a processor of another graph A (same
+    variables) has served decodes in the same process. Runs in a fresh interpreter."""
+    import json
+    import subprocess
+    import sys
+    import tempfile
+    la, lb, enc = payload
+    ctx = Ctx(None)
+    here = os.path.dirname(os.path.dirname(os.path.abspath(__file__)))
+    code = CROSS_CODE % dict(here=here, a=la, b=lb, enc=enc)
+    with tempfile.TemporaryDirectory() as td:
+        env = dict(os.environ, XDG_CACHE_HOME=td, PYTHONPATH=os.environ.get('VERIF_REPO', '/repo'))
+        p = subprocess.run([sys.executable, '-c', code], capture_output=True, text=True, env=env)
+    wit = [enc, 'other-processor', la, lb]
+    if p.returncode != 0:
+        ctx.check('C05.independent-of-other-processors', False, wit, 'subprocess failed: ' + p.stderr[-600:], (la, lb, enc))
+        return ctx.result()
+    diff = json.loads(p.stdout.strip().splitlines()[-1])
+    ctx.check('C05.independent-of-other-processors', not diff, wit,
+              f'after a processor of {la} served decodes, fresh processors of {lb} decode differently: {diff[:2]}', (la, lb, enc))
+    return ctx.result()
